@@ -473,7 +473,18 @@ def r8(prog, run):
                 continue
             n += 1
             run.instance(rid)
-            flags = {f.nodes[j]['name'].split('::')[-1] for j in f.walk(c['args'][0]) if f.nodes[j]['k'] == 'enum'}
+            def enumerators(nid, depth=0):
+                out = set()
+                for j in f.walk(nid):
+                    m = f.nodes[j]
+                    if m['k'] == 'enum':
+                        out.add(m['name'].split('::')[-1])
+                    if m['k'] == 'var' and m.get('vk') == 'local' and depth < 3:
+                        for d_ in f.all_defs(m.get('decl')):
+                            if d_ is not None:
+                                out |= enumerators(d_, depth + 1)
+                return out
+            flags = enumerators(c['args'][0])
             ok = flags == {'WriteOnly'} or ('Truncate' in flags and 'Append' not in flags)
             if ok:
                 run.ok(rid, f.loc(i), 'destination opened with %s (truncating)' % '|'.join(sorted(flags)))
